@@ -1,7 +1,7 @@
 (* requests (space separated):
    RUN <limit> <lax> <maxline> <maxfield> <maxtrailers> <flow> <L|C|E> <len> <enc> <fuel> <ev>...
        ev: D<hex> data | X close | A readany | R<n> read(n) | S<n> set_read_chunk_size(n)
-       -> one token per event:  <obs>/<tpaused><rpaused><connected><eof><has_more>.<rsize>.<low>
+       -> one token per event:  <obs>/<tpaused><rpaused><payload parser open><eof><has_more>.<rsize>.<low>
           obs: - nothing | s skipped | b blocked | d<hex> | e<kind>
    HS <mode> <hex>:<maxlen> ...   ZLibDecompressor calls -> per call  <hex>/<avail><eof>  | ERR | FUEL
    RR <cms> <hex> <hex> ...       BaseRequest.read loop over readany() results -> TOOLARGE.<peak> | OK.<len>.<peak> *)
@@ -28,7 +28,7 @@ let obs_str = function
 let snap y =
   let s = core y in
   let p = pr s and r = re s in
-  Printf.sprintf "%s%s%s%s%s.%d.%d" (b01 (tpaused p)) (b01 (rpaused p)) (b01 (connected p)) (b01 (reof r)) (b01 (has_more p))
+  Printf.sprintf "%s%s%s%s%s.%d.%d" (b01 (tpaused p)) (b01 (rpaused p)) (b01 (pp_present p && parser_alive p)) (b01 (reof r)) (b01 (has_more p && parser_alive p))
     (int_of_n (rsize r)) (int_of_n (low r))
 let handle line =
   match words line with
